@@ -21,7 +21,7 @@ P = {
  "C04": ("Theorems C04_bnb_optimal / C04_maximize: yielded objective values strictly decrease, every yielded assignment is a solution, nothing yielded iff unsatisfiable, the last yielded assignment is optimal; maximize is minimize of the opposite view. Tie: sequences of minimize/maximize runs compared between model and code for random objective views.",
          "Lean 4 proof (branch-and-bound invariant `Decr` by induction over the search tree) with differential correspondence",
          "Search path only: the optimisation fast path and the root LP step are switched off in the engine-level runs and handled as call-site findings."),
- "C05": ("Theorems C05_contract (per-kind: keeps every supported value, only shrinks, records events, checks fixed tuples, reads only its triggers), C05_fixpoint_keeps_solutions, C05_fixpoint_shrinks, C05_fixed_checked for any schedule/agenda; C05_contract_inv (all 31 modelled kinds, store precondition only for modulo), C05_propagation_terminates, C05_fixpoint_all_kinds; counterexamples for the open findings (all-zero linear rows, modulo family). Tie: every kind's prune compared exactly (result, all domains, events, triggers) on random and exhaustive domain tuples, incl. prune/tighten/prune sequences.",
+ "C05": ("Theorems C05_contract (per-kind: keeps every supported value, only shrinks, records events, checks fixed tuples, reads only its triggers), C05_fixpoint_keeps_solutions, C05_fixpoint_shrinks, C05_fixed_checked for any schedule/agenda; C05_contract_inv (all 31 modelled kinds, no store precondition beyond boolean domains for the boolean variables), C05_propagation_terminates, C05_fixpoint_all_kinds; counterexamples for the open findings (all-zero linear rows, modulo family). Tie: every kind's prune compared exactly (result, all domains, events, triggers) on random and exhaustive domain tuples, incl. prune/tighten/prune sequences.",
          "Lean 4 proof (per-kind contract lemmas, fixpoint theorems) with differential correspondence",
          "Kinds not yet in PK (alldiff, element, table, count, cardinality, between, if-then-else, div, modulo, mul, allequal, float linear) are not covered by theorems in this revision."),
  "C12": ("Integer arms: C12_trySetMin_int_exact / C12_trySetMax_int_exact: exact filter semantics, failure iff empty remainder, event iff change, frame. Float arms (Props/C12Float.lean, exact rationals): never widens, outward-safe (a value one step inside the bound is kept), no inverted interval, event iff change, failure only across a gap; float bound on an integer variable exact; FloatInterval primitives (round/floor/ceil to step, next/prev, mid, remove_below/above) stay inside and are monotone; counterexample + partial theorem for the integer-bound-on-float-variable arm (recorded finding). Tie: ctx.min/ctx.max ops through hook H1 and every FloatInterval method compared bit-for-bit, exhaustive over a small grid universe; set-filter oracle.",
